@@ -194,6 +194,20 @@ class Prov:
                 if isinstance(k, ast.Constant) and k.value == "dtype":
                     return self.dtype_from_block(f, v, depth + 1), src(v)
             return False, "dict literal without a dtype entry"
+        if isinstance(e, ast.DictComp) and len(e.generators) == 1 and isinstance(e.key, ast.Name):
+            # {a: getattr(B, a) for a in ("dtype", "device") if hasattr(B, a)}: the same entries, written once
+            g = e.generators[0]
+            names = [x.value for x in g.iter.elts if isinstance(x, ast.Constant)] if isinstance(g.iter, (ast.Tuple, ast.List)) else []
+            v = e.value
+            if isinstance(g.target, ast.Name) and g.target.id == e.key.id and "dtype" in names and len(names) == len(g.iter.elts) \
+                    and isinstance(v, ast.Call) and src(v.func) == "getattr" and len(v.args) == 2 and src(v.args[1]) == e.key.id \
+                    and self.is_block(f, v.args[0], depth + 1):
+                blk = src(v.args[0])
+                for t in g.ifs:
+                    if src(t) != f"hasattr({blk}, {e.key.id})":
+                        return False, f"dtype entry guarded by unrelated condition {src(t)}"
+                return True, f"{{..: getattr({blk}, ..)}} over {names}"
+            return False, f"cannot trace {src(e)[:60]}"
         if isinstance(e, ast.Name):
             ds = self.defs(f, e.id)
             if not ds:
@@ -329,6 +343,125 @@ def check_alloc(prog, ctx):
     ctx.minimum(rid, 5, "two fuse strategies, fill_missing_blocks, to_dense, operator builder")
 
 
+SHAPE_FUNCS = {"ar.shape", "ar.size", "ar.ndim", "len", "range", "enumerate", "int", "round", "divmod", "abs", "min", "max", "sum", "sorted", "bool"}
+COUNT_LIBFNS = {"count_nonzero", "size", "ndim", "argmax", "argmin"}
+
+
+def int_like(f, e, depth=0, seen=None):
+    """True when the expression provably denotes sizes / counts / flags (shape entries, lengths, integer arithmetic on those, comparisons,
+    rng integers), never element data of a block: int() of such a value converts no data.  Local def-use only."""
+    seen = set() if seen is None else seen
+    if depth > 8:
+        return False
+    if isinstance(e, ast.Constant):
+        return isinstance(e.value, (int, bool))
+    if isinstance(e, (ast.Compare, ast.BoolOp)) or (isinstance(e, ast.UnaryOp) and isinstance(e.op, ast.Not)):
+        return True  # a truth value
+    if isinstance(e, ast.UnaryOp):
+        return int_like(f, e.operand, depth + 1, seen)
+    if isinstance(e, ast.BinOp):
+        return int_like(f, e.left, depth + 1, seen) and int_like(f, e.right, depth + 1, seen)
+    if isinstance(e, ast.IfExp):
+        return int_like(f, e.body, depth + 1, seen) and int_like(f, e.orelse, depth + 1, seen)
+    if isinstance(e, ast.Attribute):
+        return e.attr in ("size", "ndim", "shape", "sizes", "size_total", "num_blocks", "num_charges")
+    if isinstance(e, ast.Subscript):
+        return shape_like(f, e.value, depth + 1, seen) or int_like(f, e.value, depth + 1, seen)
+    if isinstance(e, ast.Call):
+        fn = src(e.func)
+        if fn in ("len", "ar.size", "ar.ndim"):
+            return True
+        if fn in ("int", "round", "abs", "min", "max", "sum", "divmod"):
+            return all(int_like(f, a, depth + 1, seen) or shape_like(f, a, depth + 1, seen) for a in e.args)
+        if fn == "ar.do" and e.args and isinstance(e.args[0], ast.Constant) and e.args[0].value in COUNT_LIBFNS:
+            return True
+        if isinstance(e.func, ast.Attribute) and e.func.attr in ("integers", "randint", "size_of", "count", "index", "bit_length"):
+            return True
+        return False
+    if isinstance(e, ast.Name):
+        if e.id in seen:
+            return True  # a cycle through the cast itself (d = int(d)) adds nothing
+        seen = seen | {e.id}
+        binds = _bindings(f, e.id)
+        if not binds or e.id in f.all_params():
+            return False
+        return all(kind(f, v, depth + 1, seen) for kind, v in binds)
+    return False
+
+
+def shape_like(f, e, depth=0, seen=None):
+    """an iterable / tuple of sizes"""
+    seen = set() if seen is None else seen
+    if depth > 8:
+        return False
+    if isinstance(e, ast.Call):
+        fn = src(e.func)
+        if fn in ("ar.shape", "range"):
+            return True
+        if fn in ("tuple", "list", "sorted", "reversed", "map") and e.args:
+            return all(shape_like(f, a, depth + 1, seen) or (fn == "map" and i == 0) for i, a in enumerate(e.args))
+        if isinstance(e.func, ast.Attribute) and e.func.attr in ("get_block_shape", "values") and "size" in src(e.func.value).lower():
+            return True
+        return False
+    if isinstance(e, ast.Attribute):
+        return e.attr in ("shape", "sizes")
+    if isinstance(e, (ast.Tuple, ast.List)):
+        return all(int_like(f, x, depth + 1, seen) for x in e.elts)
+    if isinstance(e, ast.Name):
+        if e.id in seen:
+            return True
+        seen = seen | {e.id}
+        binds = _bindings(f, e.id)
+        if not binds or e.id in f.all_params():
+            return False
+        return all((shape_like if kind is int_like else _never)(f, v, depth + 1, seen) for kind, v in binds)
+    return False
+
+
+def _never(*a):
+    return False
+
+
+def _elem_of(f, it, depth, seen):
+    """is every element of the iterable `it` int-like?"""
+    return shape_like(f, it, depth, seen)
+
+
+def _bindings(f, name):
+    """[(judge, expression)] for every binding of `name` in f: plain assignments judge their value; loop / comprehension targets judge
+    the iterable they draw from (position-wise through zip / enumerate)"""
+    out = []
+
+    def from_iter(target, it):
+        if isinstance(target, ast.Name) and target.id == name:
+            out.append((_elem_of, it))
+        elif isinstance(target, (ast.Tuple, ast.List)):
+            if isinstance(it, ast.Call) and src(it.func) == "zip" and len(it.args) == len(target.elts):
+                for t_, a_ in zip(target.elts, it.args):
+                    from_iter(t_, a_)
+            elif isinstance(it, ast.Call) and src(it.func) == "enumerate" and len(target.elts) == 2 and it.args:
+                if isinstance(target.elts[0], ast.Name) and target.elts[0].id == name:
+                    out.append((int_like, ast.Constant(value=0)))
+                from_iter(target.elts[1], it.args[0])
+            elif any(isinstance(x, ast.Name) and x.id == name for x in ast.walk(target)):
+                out.append((_never, it))
+
+    for n in ast.walk(f.node):
+        if isinstance(n, ast.Assign):
+            for t in n.targets:
+                if isinstance(t, ast.Name) and t.id == name:
+                    out.append((int_like, n.value))
+                elif any(isinstance(x, ast.Name) and x.id == name and isinstance(x.ctx, ast.Store) for x in ast.walk(t)):
+                    out.append((_never, n.value))
+        elif isinstance(n, (ast.AugAssign, ast.AnnAssign)) and isinstance(n.target, ast.Name) and n.target.id == name and n.value is not None:
+            out.append((int_like, n.value))
+        elif isinstance(n, ast.NamedExpr) and n.target.id == name:
+            out.append((int_like, n.value))
+        elif isinstance(n, (ast.For, ast.comprehension)):
+            from_iter(n.target, n.iter)
+    return out
+
+
 def check_casts(prog, ctx):
     rid = "R20.2"
     n = 0
@@ -362,6 +495,11 @@ def check_casts(prog, ctx):
         allowed = CAST_TABLE.get(q)
         ok = allowed is not None and kind in allowed[0]
         where = f if f is not None else m
+        if kind == "int" and f is not None and node.args and all(int_like(f, a) for a in node.args):
+            # wherever it sits: the argument is a size / count / flag by local def-use, no element data is converted
+            ctx.ok(rid, f"{f.file}:{f.qualname}", f"int in {q}: {src(node)[:80]} converts a size, count or flag (shape entry, length, integer "
+                                                   "arithmetic), not element data")
+            continue
         ctx.check(ok, rid, where, node, src(node)[:100],
                   f"{kind} in {q}: " + (allowed[1] if ok else "cast-like construct outside the confirmed table "
                                         "(element type or imaginary part of block data may be lost)"))
